@@ -50,10 +50,13 @@ class Batch:
         self.chk = chk
         self.corr = corr_name
         self.cases = []
+        self.factories = {}
 
     def add(self, label, thunk, model_op, spec_op, meta, canon=core.canon_trips,
-            expect_error=None):
+            expect_error=None, factory=None):
+        """factory(xs) -> (thunk, spec_op): lets a failing self-mode case be shrunk to a minimal input"""
         self.cases.append((label, thunk, model_op, spec_op, meta, canon, expect_error))
+        self.factories[len(self.cases) - 1] = factory
 
     def run(self, on_violation=None):
         chk = self.chk
@@ -113,6 +116,11 @@ class Batch:
                            "spec": str(sp_c)[:4000], "model": str(mo_c)[:4000]}
                     if on_violation:
                         rep = on_violation(idx, self.cases[idx], rep) or rep
+                    elif self.factories.get(idx) and isinstance(meta.get("xs"), list):
+                        try:
+                            rep["minimal_input"] = shrink_self(self.factories[idx], meta["xs"], canon)
+                        except Exception as e:  # noqa
+                            rep["shrink_error"] = repr(e)
                     chk.violation(sig_of(chk.pid, label, real, sp_c), f"{label}: implementation differs from specification "
                                   f"(real={str(real)[:150]} spec={str(sp_c)[:150]})", rep)
                 else:
@@ -141,6 +149,20 @@ def sig_of(pid, label, real, ref):
     if not kinds and sorted(real[1]) != sorted(ref[1]):
         kinds.append("repeated")
     return f"{pid}|{base}|{'+'.join(kinds) or 'differs'}"
+
+
+def shrink_self(factory, xs, canon):
+    """delta-debug a failing self-mode input: fewer strings, then shorter strings"""
+    def fails(cand):
+        thunk, sop = factory(cand)
+        st, val = core.call_real(thunk)
+        sp = core.run_driver([sop])[0]
+        if st != "ok" or sp[0] != "ok" or sp[1] is None:
+            return st != "ok"
+        return canon(val) != core.canon_model_trips(sp[1])
+    xs = core.shrink_list(list(xs), fails, max_steps=150)
+    xs = core.shrink_strings(xs, fails, max_steps=150)
+    return xs
 
 
 # ------------------------------------------------------------------ directed search helpers
